@@ -304,8 +304,20 @@ static void run_history (char *line) {
   }
   printf ("\n");
   fflush (stdout);
-  if (!failed) { /* after an error the context is abandoned (module creation may be half done) */
-    if (gen_inited) MIR_gen_finish (ctx);
+  /* tear the context down; after an error module creation may be half done, in which case
+     MIR_finish frees nearly everything and then reports the unfinished module/function: that
+     last error is swallowed here */
+  if (setjmp (err_jmp) == 0) {
+    if (failed) /* MIR_link marks functions with item->data = 1 and an error leaves the marks behind;
+                   MIR_finish would pass them to free */
+      for (MIR_module_t m = DLIST_HEAD (MIR_module_t, *MIR_get_module_list (ctx)); m != NULL;
+           m = DLIST_NEXT (MIR_module_t, m))
+        for (MIR_item_t it = DLIST_HEAD (MIR_item_t, m->items); it != NULL; it = DLIST_NEXT (MIR_item_t, it))
+          if (it->data == (void *) 1) it->data = NULL;
+    if (gen_inited) {
+      gen_inited = 0;
+      MIR_gen_finish (ctx);
+    }
     MIR_finish (ctx);
   }
 }
